@@ -207,6 +207,15 @@ def check(ctx: Ctx):
               "self._all_agt_stopped.set() must happen on 'agent_removed' exactly when discovery.agents() is empty")
     subs = _calls(repo.func(ORC, "AgentsMgt.on_start"), lambda c: norm(c.func) == "self.discovery.subscribe_agent" and len(c.args) == 2 and norm(c.args[1]) == "self._cb_agent_registration")
     ctx.check(len(subs) == 1, "R-END.stop", "the management computation subscribes to agent (un)registrations", repo.func(ORC, "AgentsMgt.on_start"), subs[0] if subs else None, "")
+    # ... for EVERY agent of the DCOP: all of them register, all of them are sent the stop request (discovery.agents()), and the
+    # all-stopped event is only ever set from a removal callback; an agent left out (e.g. one that hosts nothing) stops unseen
+    ons = repo.func(ORC, "AgentsMgt.on_start")
+    lps = [l for l in walk_no_nested(ons.node) if isinstance(l, ast.For) and subs and any(x is subs[0] for x in ast.walk(l))]
+    ok = len(lps) == 1 and norm(lps[0].iter) in ("self._dcop.agents", "self._dcop.agents.keys()", "self._dcop.agents.values()", "list(self._dcop.agents)") and \
+        norm(subs[0].args[0]) in (norm(lps[0].target), norm(lps[0].target) + ".name")
+    ctx.check(ok, "R-END.stop", "the (un)registration callback is subscribed for every agent declared by the DCOP", ons, lps[0] if lps else ons.node,
+              "the run returns when the last registered agent has left; agents that are not in the distribution still register and are stopped: if nobody listens to "
+              "their removal and one of them leaves last, wait_stop_agents blocks until the timeout")
     run = repo.func(ORC, "Orchestrator.run")
     order = []
     for s in run.node.body:
@@ -321,6 +330,19 @@ def check(ctx: Ctx):
     cs = _calls(vsel, lambda c: is_self_attr(c.func, "_on_value_selection"))
     ok = len(cs) == 1 and [norm(a) for a in cs[0].args] == [vsel.params[1], vsel.params[2], "self.cycle_count"]
     ctx.check(ok, "R-VALUE", "value_selection notifies (value, cost, cycle)", vsel, cs[0] if cs else vsel.node, "")
+    # the first selection is always reported: the remembered previous value starts as None and nothing but value_selection writes it
+    vc = repo.cls(COMPS, "VariableComputation")
+    wr = [(m, a) for m in vc.methods.values() for a in ast.walk(m.node) if isinstance(a, (ast.Assign, ast.AugAssign, ast.AnnAssign))
+          for t in (a.targets if isinstance(a, ast.Assign) else [a.target]) if is_self_attr(t, "_previous_val")]
+    ini = [a for m, a in wr if m.name == "__init__"]
+    oth = [(m, a) for m, a in wr if m.name not in ("__init__", "value_selection")]
+    ok = len(ini) == 1 and norm(ini[0].value) == "None" and not oth
+    ctx.check(ok, "R-VALUE", "the previous value starts as None: a computation's first selection differs from it and is reported", vc.methods["__init__"], (ini or [vc.methods["__init__"].node])[0],
+              "value_selection only notifies when the value differs from the remembered one; DPOP selects exactly once, so a remembered initial value equal to the optimum "
+              "means no value_change message: the reported assignment misses the variable and no cost is computed")
+    t_ = [n for n in vsel.node.body if isinstance(n, ast.If)]
+    ok = len(t_) == 1 and norm(t_[0].test) in (f"{vsel.params[1]} != self._previous_val", f"self._previous_val != {vsel.params[1]}") and any(x is cs[0] for x in ast.walk(t_[0])) if cs else False
+    ctx.check(ok, "R-VALUE", "value_selection notifies exactly when the value differs from the remembered one", vsel, t_[0] if t_ else vsel.node, "")
     oav = repo.func(OA, "OrchestratedAgent._on_computation_value_changed")
     cs = _calls(oav, lambda c: norm(c.func) == "self._mgt_computation.on_computation_value_changed")
     ok = len(cs) == 1 and [norm(a) for a in cs[0].args] == oav.params[1:5] and _always(oav, lambda c: norm(c.func) == "self._mgt_computation.on_computation_value_changed")[0]
@@ -560,6 +582,8 @@ _A = "pydcop/infrastructure/agents.py"
 _D = "pydcop/algorithms/dpop.py"
 _S = "pydcop/commands/solve.py"
 VARIANTS = [
+    ("removal_callback_only_for_distribution_agents", _O, "        for agt in self._dcop.agents:\n            self.discovery.subscribe_agent(agt, self._cb_agent_registration)", "        for agt in self.initial_dist.agents:\n            self.discovery.subscribe_agent(agt, self._cb_agent_registration)", "break", "R-END.stop"),
+    ("previous_value_starts_at_initial_value", "pydcop/infrastructure/computations.py", "        self._previous_val = None\n", "        self._previous_val = variable.initial_value\n", "break", "R-VALUE"),
     ("deliver_only_if_running", _A, "        dest = self.computation(dest_name)\n        dest.on_message(sender_name, msg, t)\n", "        dest = self.computation(dest_name)\n        if dest.is_running:\n            dest.on_message(sender_name, msg, t)\n", "break", "R-DELIVER"),
     ("on_message_drops_when_not_running", "pydcop/infrastructure/computations.py", "            self._paused_messages_recv.append((sender, msg, t))\n\n    def post_msg", "            if self._running:\n                self._paused_messages_recv.append((sender, msg, t))\n\n    def post_msg", "break", "R-DELIVER"),
     ("dpop_value_lists_hoisted", _D, "        for c in self._children:\n            variables_msg = [self._variable]\n            values_msg = [selected_value]\n", "        variables_msg = [self._variable]\n        values_msg = [selected_value]\n        for c in self._children:\n", "break", "R-"),
